@@ -1,6 +1,7 @@
 package main
 
 import (
+	"bytes"
 	"encoding/hex"
 	"fmt"
 	"strings"
@@ -141,6 +142,26 @@ func implRenderVia(how, src string, ctx pongo2.Context) (r renderOut) {
 		for i := range buf {
 			buf[i] = next[i%len(next)]
 		}
+	case "writer", "include":
+		// through ExecuteWriter (every include renders through it too), after a rendering that failed
+		// half-way through the same entry point: what that one had written is gone with it
+		if bad, e := set.FromString("STALE-PARTIAL-OUTPUT{{ 1/zero }}"); e == nil {
+			var sink bytes.Buffer
+			bad.ExecuteWriter(pongo2.Context{"zero": 0}, &sink)
+		}
+		if how == "include" {
+			tpl, err = set.FromString(`{% include "/f.tpl" %}`)
+		} else {
+			tpl, err = set.FromString(src)
+		}
+		if err != nil {
+			return renderOut{Err: "compile", ErrMsg: err.Error()}
+		}
+		var buf bytes.Buffer
+		if err := tpl.ExecuteWriter(ctx, &buf); err != nil {
+			return renderOut{Err: "exec", ErrMsg: err.Error()}
+		}
+		return renderOut{Out: buf.String()}
 	case "file":
 		tpl, err = set.FromFile("/f.tpl")
 	case "cache":
